@@ -36,7 +36,7 @@ use crate::{
     SearchResult, VectorCoherenceToken,
 };
 use anyhow::{anyhow, Result};
-use parking_lot::RwLock;
+use parking_lot::{Mutex, RwLock};
 use std::borrow::Cow;
 use std::path::Path;
 use std::sync::atomic::AtomicBool;
@@ -286,6 +286,13 @@ pub struct TieredEngine {
 
     /// Last completed full hot-tier coherence audit.
     last_hot_tier_coherence_audit: Arc<RwLock<Instant>>,
+
+    /// Serializes the write sequences that span both tiers (cold-tier mutation followed
+    /// by the matching hot-tier mirror update, and the drain that reconciles the mirror
+    /// against the cold tier). Without it an insert racing with a delete can leave a
+    /// mirror entry for a document the cold tier no longer has, which the next drain
+    /// would "repair" back into the cold tier. Always taken first, before any other lock.
+    tier_write_gate: Mutex<()>,
 }
 
 impl TieredEngine {
@@ -392,6 +399,7 @@ impl TieredEngine {
             query_semaphore: components.query_semaphore,
             search_worker_semaphore: components.search_worker_semaphore,
             last_hot_tier_coherence_audit: components.last_hot_tier_coherence_audit,
+            tier_write_gate: Mutex::new(()),
         })
     }
 
@@ -430,6 +438,7 @@ impl TieredEngine {
             query_semaphore: components.query_semaphore,
             search_worker_semaphore: components.search_worker_semaphore,
             last_hot_tier_coherence_audit: components.last_hot_tier_coherence_audit,
+            tier_write_gate: Mutex::new(()),
         })
     }
 
@@ -487,6 +496,7 @@ impl TieredEngine {
             query_semaphore,
             search_worker_semaphore,
             last_hot_tier_coherence_audit: Arc::new(RwLock::new(Instant::now())),
+            tier_write_gate: Mutex::new(()),
         })
     }
 
@@ -862,6 +872,7 @@ impl TieredEngine {
         metadata: std::collections::HashMap<String, String>,
         merge: bool,
     ) -> Result<bool> {
+        let _tier_write_guard = self.tier_write_gate.lock();
         let existed = self
             .cold_tier
             .update_metadata(doc_id, metadata.clone(), merge)?;
@@ -904,6 +915,7 @@ impl TieredEngine {
     /// - L1b (query cache) entries referencing the document are removed via reverse index lookup
     ///   (`doc_id -> cached query keys`) to avoid full-cache scans on deletes.
     pub fn delete(&self, doc_id: u64) -> Result<bool> {
+        let _tier_write_guard = self.tier_write_gate.lock();
         let cold_deleted = self.cold_tier.delete(doc_id)?;
         let hot_deleted = self.hot_tier.delete(doc_id);
 
@@ -1043,6 +1055,8 @@ impl TieredEngine {
         let mut unique_doc_ids: Vec<u64> = doc_ids.to_vec();
         unique_doc_ids.sort_unstable();
         unique_doc_ids.dedup();
+
+        let _tier_write_guard = self.tier_write_gate.lock();
 
         // Best-effort pre-delete existence count. This can drift under concurrent
         // insert/delete races, but avoids double-counting duplicate IDs in input.
@@ -2131,6 +2145,8 @@ impl TieredEngine {
         embedding: Vec<f32>,
         metadata: std::collections::HashMap<String, String>,
     ) -> Result<()> {
+        let _tier_write_guard = self.tier_write_gate.lock();
+
         // Check for hard limit violation BEFORE insert
         let current_size = self.hot_tier.len();
         if current_size >= self.config.hot_tier_hard_limit {
@@ -2418,6 +2434,8 @@ impl TieredEngine {
         if !force && !self.hot_tier.needs_flush() {
             return Ok(0);
         }
+
+        let _tier_write_guard = self.tier_write_gate.lock();
 
         let documents = self.hot_tier.drain_for_flush();
         let count = documents.len();
